@@ -6,7 +6,7 @@ import JjModel.Lemmas.RevsetEval
 namespace JjModel.Revset
 
 /-- The expression grammar covered by `eval_sound` (every commit literal inside the graph).
-Not covered: `reachable`, `heads_range` (optimizer-internal), `fork_point`, `latest`. -/
+Not covered: `reachable`, `heads_range` (optimizer-internal). -/
 def OkE (g : Graph) : Expr → Prop
   | .none => True
   | .all => True
@@ -25,10 +25,10 @@ def OkE (g : Graph) : Expr → Prop
   | .union a b => OkE g a ∧ OkE g b
   | .inter a b => OkE g a ∧ OkE g b
   | .diff a b => OkE g a ∧ OkE g b
+  | .forkPoint x => OkE g x
+  | .latest x _ => OkE g x
   | .reachable _ _ => False
   | .headsRange _ _ _ _ => False
-  | .forkPoint _ => False
-  | .latest _ _ => False
 
 theorem refsOf_lt (g : Graph) : ∀ (e : Expr), OkE g e → ∀ x ∈ refsOf e, x < g.size := by
   intro e
@@ -82,8 +82,8 @@ theorem refsOf_lt (g : Graph) : ∀ (e : Expr), OkE g e → ∀ x ∈ refsOf e, 
   | root => intro _ x hx; simp [refsOf] at hx
   | reachable s d _ _ => intro hok; exact absurd hok (by simp [OkE])
   | headsRange r h fp f _ _ _ => intro hok; exact absurd hok (by simp [OkE])
-  | forkPoint x _ => intro hok; exact absurd hok (by simp [OkE])
-  | latest x n _ => intro hok; exact absurd hok (by simp [OkE])
+  | forkPoint x ih => intro hok; exact ih hok
+  | latest x n ih => intro hok; exact ih hok
 
 section
 variable (g : Graph) (hw : g.WF) (refs : List Nat) (hrefs : ∀ x ∈ refs, x < g.size)
@@ -120,8 +120,8 @@ theorem resolve_ok : ∀ (e : Expr), OkE g e → OkR g (resolve g refs e) := by
   | diff a b iha ihb => intro hok; simp only [resolve, OkR]; exact ⟨iha hok.1, ihb hok.2⟩
   | reachable s d _ _ => intro hok; exact absurd hok (by simp [OkE])
   | headsRange r h fp f _ _ _ => intro hok; exact absurd hok (by simp [OkE])
-  | forkPoint x _ => intro hok; exact absurd hok (by simp [OkE])
-  | latest x n _ => intro hok; exact absurd hok (by simp [OkE])
+  | forkPoint x ih => intro hok; simp only [resolve, OkR]; exact ih hok
+  | latest x n ih => intro hok; simp only [resolve, OkR]; exact ih hok
 
 end
 
@@ -171,7 +171,8 @@ theorem resolve_spec (g : Graph) (refs : List Nat) :
   | diff a b iha ihb => intro hok p; simp only [resolve, denoteR, denote, iha hok.1, ihb hok.2]
   | reachable s d _ _ => intro hok; exact absurd hok (by simp [OkE])
   | headsRange r h fp f _ _ _ => intro hok; exact absurd hok (by simp [OkE])
-  | forkPoint x _ => intro hok; exact absurd hok (by simp [OkE])
-  | latest x n _ => intro hok; exact absurd hok (by simp [OkE])
+  | forkPoint x ih =>
+    intro hok p; simp only [resolve, denoteR, denote, ForkPointOf, HeadsOf, ih hok]
+  | latest x n ih => intro hok p; simp only [resolve, denoteR, denote, LatestOf, ih hok]
 
 end JjModel.Revset
